@@ -941,6 +941,10 @@ func c10CondAtoms() []c10Cond {
 		{"ps-below", []c10PfxEnt{{"10.32.0.0/16", 8, 24}}},
 		{"ps-two", []c10PfxEnt{{"10.1.0.0/16", -1, -1}, {"192.168.0.0/16", 16, 16}}},
 		{"ps-dup", []c10PfxEnt{{"10.1.0.0/16", 16, 16}, {"10.1.0.0/16", 25, 25}}},
+		// nested entries with different ranges: every covering entry counts, not only the longest match
+		{"ps-nested", []c10PfxEnt{{"10.0.0.0/8", 24, 24}, {"10.1.0.0/16", 16, 20}}},
+		{"ps-nested-rev", []c10PfxEnt{{"10.0.0.0/8", 8, 12}, {"10.1.0.0/16", 24, 32}}},
+		{"ps-nested6", []c10PfxEnt{{"2001:db8::/32", 48, 48}, {"2001:db8:1::/48", 56, 64}}},
 		{"ps-v6", []c10PfxEnt{{"2001:db8::/32", 32, 48}}},
 		{"ps-any6", []c10PfxEnt{{"::/0", 0, 128}}},
 	}
